@@ -163,6 +163,7 @@ fn prove_scenario_c<B: Fld, H: ElementHasher<BaseField = B> + Send + Sync>(n: us
         exemptions: 2,
         asserts: vec![ASpec { col: 0, kind: AKind::Single(0) }, ASpec { col: 4, kind: AKind::Periodic { first: 0, stride: 4 } }, ASpec { col: 1, kind: AKind::Sequence { first: 1, stride: n / 64 } }],
         aux,
+        aux_pow: 1,
         tail: Tail::Continue,
         init: 3,
     };
